@@ -10,6 +10,8 @@ from . import mc, tlc
 from .common import ImplementationTimeout, allclose, close, fr, key, time_limit
 
 NOCAP = -1
+SIMS1 = [(2, 0, 3), (-1, 0, -2), (3, 0, 0)]
+SIMS2 = [(2, 0, (3, -1)), (1, 1, (0, 0)), (-1, 1, (2, 5))]
 TIMEOUTS = [0]
 NOTHR = Fraction(-1)
 
@@ -46,11 +48,13 @@ def build(n, dm, k, data, inits, comps, caps, thrs, maxstep=6, dev=()):
             "MC_Caps": mc.Expr("{" + ", ".join("NoCap" if c == NOCAP else str(c) for c in caps) + "}"),
             "MC_Thrs": mc.Expr("{" + ", ".join("NoThr" if t == NOTHR else "<<%d, %d>>" % (t.numerator, t.denominator)
                                                for t in thrs) + "}"),
-            "MC_Dev": mc.Expr("{" + ", ".join('"%s"' % d for d in dev) + "}")}
+            "MC_Dev": mc.Expr("{" + ", ".join('"%s"' % d for d in dev) + "}"),
+            "MC_Sims": mc.Expr("{" + ", ".join("[s |-> %d, q |-> %d, t |-> <<%s>>]" % (s_, q_, ", ".join([str(t_)] * dm if not isinstance(t_, tuple) else map(str, t_)))
+                                                for s_, q_, t_ in (SIMS1 if dm == 1 else SIMS2)) + "}")}
     text = mc.module("MC_KMeans", ["KMeans"], defs)
     consts = {"N": n, "Dm": dm, "K": k, "MaxStep": maxstep}
     subst = {"DataSets": "MC_Data", "InitSets": "MC_Init", "Comps": "MC_Comps", "Caps": "MC_Caps",
-             "Thrs": "MC_Thrs", "Dev": "MC_Dev"}
+             "Thrs": "MC_Thrs", "Dev": "MC_Dev", "Sims": "MC_Sims"}
     return text, consts, subst
 
 
